@@ -14,11 +14,12 @@ from pathlib import Path
 
 
 class Recorder:
-    def __init__(self, root, crash_at=None, exc_at=None):
+    def __init__(self, root, crash_at=None, exc_at=None, crash_after=None):
         self.root = str(root)
         self.ops = []
         self.crash_at = crash_at
         self.exc_at = exc_at  # raise OSError instead of performing operation k
+        self.crash_after = crash_after  # die immediately AFTER operation k returned (before the caller does anything else)
         self.snap = {}  # op index of an open_w -> bytes the file had when the NEXT op happened
         self._open_idx = []
         self._in_rm = None
@@ -52,6 +53,11 @@ class Recorder:
         if name == 'open_w':
             self._open_idx.append(idx)
 
+    def after(self):
+        """called right after an operation was performed: the process may die here, with whatever is still buffered"""
+        if self.active and self.crash_after is not None and len(self.ops) - 1 == self.crash_after:
+            os._exit(77)
+
     # ---------------------------------------------------------------- patching
     def install(self):
         if self.installed:
@@ -71,11 +77,15 @@ class Recorder:
 
         def rename(src, dst, *a, **k):
             rec.hit('rename', src, dst)
-            return o['rename'](src, dst, *a, **k)
+            r = o['rename'](src, dst, *a, **k)
+            rec.after()
+            return r
 
         def replace(src, dst, *a, **k):
             rec.hit('rename', src, dst)
-            return o['replace'](src, dst, *a, **k)
+            r = o['replace'](src, dst, *a, **k)
+            rec.after()
+            return r
 
         def unlink(path, *a, **k):
             rec.hit('unlink', path)
